@@ -1604,6 +1604,27 @@ def gen_parse():
     first, second = fold_lean(per_char[:2]), fold_lean(per_char[2:])
     if first != second:
         raise TranslateError("new_inner: the escape loop and the closure treat a character differently")
+    # the byte path's whole-string case handling
+    byte_case = [(pos, txt) for pos, which, txt in blocks_src if which == "case" and "chars::" not in txt]
+    if len(byte_case) != 1:
+        raise TranslateError(f"new_inner: expected one whole-string `match case` on the byte path, found {len(byte_case)}")
+    rows = {}
+    for a in [a.strip().rstrip(",").strip() for a in re.split(r"(?=CaseMatching::)", byte_case[0][1].strip()) if a.strip()]:
+        mmm = re.fullmatch(r"CaseMatching::(\w+) => (.*)", a, re.S)
+        if not mmm:
+            raise TranslateError(f"new_inner byte path: arm {a!r}")
+        rhs = re.sub(r"\s+", " ", re.sub(r"^\{\s*(.*?);?\s*\}$", r"\1", mmm.group(2).strip(), flags=re.S)).strip()
+        table = {"ignore_case = true; needle.make_ascii_lowercase()": "(lower n, true)",
+                 "ignore_case = !needle.bytes().any(|b| b.is_ascii_uppercase())": "(n, !any_upper n)",
+                 "ignore_case = false": "(n, false)"}
+        if rhs not in table:
+            raise TranslateError(f"new_inner byte path: statement {rhs!r}")
+        rows[mmm.group(1)] = table[rhs]
+    if sorted(rows) != sorted(cases):
+        raise TranslateError(f"new_inner byte path: match on case covers {sorted(rows)}")
+    out += ["/-- the byte path of `new_inner`: what `match case` does with the whole (already unescaped) needle: (needle, ignore_case) -/",
+            "def ascii_case (lower : List Nat → List Nat) (any_upper : List Nat → Bool) (case : Nat) (n : List Nat) : List Nat × Bool :=",
+            "  match case with " + " ".join(f"| {cases.index(k)} => {rows[k]}" for k in cases[:-1]) + f" | _ => {rows[cases[-1]]}", ""]
     out += ["/-- the per-character bookkeeping of the grapheme loop of `new_inner`, in source order (`CaseMatching`: " + ", ".join(f"{i} = {k}" for i, k in enumerate(cases)) +
             "; `Normalization`: " + ", ".join(f"{i} = {k}" for i, k in enumerate(norms)) + "): (character pushed, ignore_case, normalize) -/",
             "def fold_char (to_lower : Nat → Nat) (is_upper : Nat → Bool) (normalize : Nat → Nat) (case norm : Nat) (c : Nat) (ic nz : Bool) : Nat × Bool × Bool :="] + first + ["  (c, ic, nz)", ""]
